@@ -1,7 +1,10 @@
 package main
 
 import (
+	"fmt"
 	"strings"
+
+	"github.com/markusmobius/go-domdistiller/vtrace"
 
 	"golang.org/x/net/html"
 )
@@ -59,7 +62,14 @@ func runDoc(c Case, e *env) []Event {
 	}
 	obs := project(out.res, out.err, src, chains, urls)
 	countDoc(src, obs)
-	return []Event{call, {"ev": "Return", "run": c.ID, "obs": obs}}
+	evs := []Event{call}
+	if e.prop == "C07" || e.prop == "C08" {
+		// the element list before the document filters and after each of them (verif hooks)
+		if f := filterEvent(c.ID, out.hooks); f != nil {
+			evs = append(evs, f)
+		}
+	}
+	return append(evs, Event{"ev": "Return", "run": c.ID, "obs": obs})
 }
 
 // countDoc keeps sensitivity statistics (never used for verdicts).
@@ -132,4 +142,49 @@ func countDoc(src *Src, obs *Obs) {
 			break
 		}
 	}
+}
+
+// elemList turns the hook's element summary into the records of spec/DocFilters.tla.
+func elemList(v interface{}) []map[string]interface{} {
+	out := []map[string]interface{}{}
+	l, ok := v.([]interface{})
+	if !ok {
+		return out
+	}
+	for _, x := range l {
+		m, ok := x.(map[string]interface{})
+		if !ok {
+			continue
+		}
+		rec := map[string]interface{}{"k": m["k"], "c": m["c"], "name": "", "start": false}
+		if m["k"] == "tag" {
+			rec["name"] = m["name"]
+			rec["start"] = m["start"]
+		}
+		out = append(out, rec)
+	}
+	return out
+}
+
+func filterEvent(run int, hooks []vtrace.Event) Event {
+	var before []map[string]interface{}
+	after := map[string][]map[string]interface{}{}
+	order := []string{}
+	for _, h := range hooks {
+		kv := hookKV(h)
+		switch h.Name {
+		case "Pass":
+			before = elemList(kv["elems"])
+		case "DocFilter":
+			name := fmt.Sprint(kv["name"])
+			after[name] = elemList(kv["elems"])
+			order = append(order, name)
+		}
+	}
+	if before == nil || len(order) != 3 {
+		return nil
+	}
+	count("filter_lists")
+	return Event{"ev": "Filters", "run": run, "order": order, "before": before,
+		"rel": after["RelevantElements"], "lead": after["LeadImage"], "nested": after["NestedElementRetainer"]}
 }
